@@ -200,6 +200,7 @@ func checkC02(c *Ctx, r *Report, tier string) {
 	noMutationBeforeErrorReturn(c, r, "C02.R4")
 	restoreResetsBeforeSuccess(c, r, "C02.R3")
 	c02R5(c, r, x)
+	publishedVertexWrites(c, r, "C02.R5")
 }
 
 // shardMapWrites lists MapUpdate/delete on shard maps in f.
